@@ -37,6 +37,21 @@ The caller keeps ONE channel ndarray (BlockDiagonalizer) / ONE channel object
 overwrites that SAME buffer in place (H[:] = next member) / re-initialises that
 SAME channel object; after the last run the inputs must be bit-identical and a
 second call on the same objects must return the same.
+Part L (several live objects): two (three) objects of one class are alive at once,
+configured differently (EnhancedBD: None, naive/1, naive/2, fixed/1, fixed/2, capacity,
+effective_throughput, and variants with other iPu / pe / noise_var; WhiteningBD and
+BlockDiagonalizer: other iPu / pe / noise_var / entry point): every ordered pair x
+{configure right after each construction | construct both, configure in order |
+construct both, configure in reverse order} x run order {A,B,A | B,A,B}; ordered
+triples with runs A,B,C,A.  Every run must be bit-identical to ONE fresh object of
+that configuration (whose relations are checked); on a difference the B-/A-relations
+are evaluated on the deviating result.
+Part E (error paths): unknown metric name, naive / fixed / effective_throughput
+without their arguments, a channel whose row count is not a multiple of the users,
+a 1-D channel: the call must raise, the object's attribute digest must be unchanged
+and a later run must give the same result as before.  num_streams outside 1..n is
+outside the property's domain (the library accepts it silently): only "a later valid
+re-configuration behaves like a fresh object" is required.
 Scale families (A and B): every coefficient x c, c in {1e-12,1e-9,1e-6,1e6}, with
 noise x c^2 (and pe x c^2 where only the users' channel is scaled) and one
 independently scaled noise; every tolerance is relative to the scale of the case.
@@ -68,7 +83,10 @@ RULE = ("A: (K,n) in {2,3}x{1,2,3} x {generic G_s, weak user, weak antenna, kapp
         "relations for the current configuration and bit-for-bit against a fresh object; distinct = history. "
         "Histories include refresh-in-place of the caller's one channel buffer / channel object; inputs "
         "bit-identical after every checked call; repeated call identical. Scale families: A and B with all "
-        "coefficients x{1e-12,1e-9,1e-6,1e6}, noise (pe) x c^2 and one independent noise")
+        "coefficients x{1e-12,1e-9,1e-6,1e6}, noise (pe) x c^2 and one independent noise. L: every ordered "
+        "pair (and triple) of differently configured LIVE objects of one class x 3 construction/configuration "
+        "orders x 2 run orders, every run bit-identical to one fresh object. E: every invalid call x every "
+        "configuration: raises, object digest unchanged, later result unchanged")
 
 LAYOUTS = ((2, 1), (2, 2), (3, 1), (2, 3), (3, 2), (3, 3))
 IPUS = (1.0, 0.5, 2.5)
@@ -852,10 +870,11 @@ def run_live(chk, cls, cis, setup, runs, name, chans, case):
         res = l_run(cls, objs[i], cfgs[i], chan, name, mc)
         if not _same_result(res, fresh[i]):
             others = sorted(set(cfg_label(c) for j, c in enumerate(cfgs) if j != i))
-            chk.fail((cls, "live_objects", "differs_from_single_object",
-                      cfg_label(cfgs[i]) + "_beside_" + "+".join(others)),
+            kind = str(cfgs[i].get("metric", cfgs[i].get("method", "default")))
+            chk.fail((cls, "live_objects", "differs_from_single_object", kind),
                      dict(case, failing_step=step), observed="run %d of object %d" % (step, i),
-                     expected="bit-identical to one fresh object configured %r" % (cfgs[i],))
+                     expected="bit-identical to one fresh object configured %r" % (cfgs[i],),
+                     msg="%s beside live object(s) %s" % (cfg_label(cfgs[i]), "+".join(others)))
             l_relations(chk, cls, cfgs[i], chan, name, res, dict(case, failing_step=step), "live_objects")
     chk.nontriv(("L", cls, tuple(cis), setup, tuple(runs), name))
 
